@@ -55,6 +55,17 @@ func rewriteList(fset *token.FileSet, file string, list []ast.Stmt, n *int) []as
 			*n++
 		}
 		out = append(out, st)
+		if _, ok := st.(*ast.GoStmt); ok {
+			// and a yield point right after every go statement: the
+			// goroutine exists, its creator has not moved on
+			pos := fset.Position(st.Pos())
+			arg := fmt.Sprintf("%s:%d", file, pos.Line)
+			out = append(out, &ast.ExprStmt{X: &ast.CallExpr{
+				Fun:  ast.NewIdent("simYield"),
+				Args: []ast.Expr{&ast.BasicLit{Kind: token.STRING, Value: `"auto.go"`}, &ast.BasicLit{Kind: token.STRING, Value: fmt.Sprintf("%q", arg)}},
+			}})
+			*n++
+		}
 	}
 	return out
 }
